@@ -727,6 +727,10 @@ func (r *runner) step(i int, s *Step, rng *vf.Rng) {
 			r.fail("database commit returned an error", err.Error())
 		}
 		r.count("op:dbcommit")
+		// the committed root must be readable through a fresh Database over the same disk
+		if what := readCompletely(trie.NewDatabase(r.diskdb), r.lastRoot, r.ref); what != "" {
+			r.fail("a committed root cannot be read back from disk", fmt.Sprintf("step %d root %x: %s", i, r.lastRoot, what))
+		}
 	case "reopen":
 		if !r.committed {
 			return
@@ -910,6 +914,10 @@ func genHistory(rng *vf.Rng) History {
 		h.CacheLimit = rng.Intn(3)
 	}
 	pool := genPool(rng)
+	if rng.Chance(25) {
+		under, other := extPool(rng)
+		pool = append(append(under, other), pool[:len(pool)/3]...)
+	}
 	key := func() []byte {
 		if rng.Chance(4) {
 			return rng.Bytes(rng.Intn(4))
